@@ -281,6 +281,8 @@ def _tlc_parallel(ck: Check, jobs):
             old = ck.cov.get(k, [0, 0])
             ck.cov[k] = [old[0] + d, old[1] + g]
         ck.tlc_cmds.append(res.cmd)
+        ck.extra.setdefault("tlc_runs", []).append({"cfg": j["cfg"], "seed": j.get("seed"), "wall_s": round(res.wall_s, 1),
+                                                     "states": res.distinct, "records": len(res.records)})
     return results
 
 
